@@ -3,6 +3,7 @@
 // options and compaction filter forwarded to the tree (C16, C18), delete contract (C12)
 #![allow(unused_imports, unused_variables, dead_code, unused_mut, unused_parens, unreachable_code, unused_assignments)]
 use vstd::prelude::*;
+use vstd::std_specs::iter::IteratorSpec;
 verus! {
 //@include prelude/core.rs
 //@include prelude/fjall_types.rs
@@ -12,11 +13,16 @@ verus! {
 //@path lsm_tree::Config::new => LsmConfig::new
 //@path lsm_tree::Config => LsmConfig
 //@path std::fs::create_dir_all => fs_create_dir_all
-//@world is_deleted.store
+//@type Arc<dynCompactionFilterFactory+'static> => FilterFactory
+//@path std::fs::read_dir => fs_read_dir
+//@path std::fs::remove_dir_all => fs_remove_dir_all
+//@path KeyspaceCreateOptions::from_kvs => CreateOptions::from_kvs
+//@world is_deleted.store meta_keyspace.resolve_id fs_remove_dir_all keyspaces_lock.insert CreateOptions::from_kvs
 
 pub mod atomic_shim { pub use std::sync::atomic::Ordering; }
 // ---- ghost world of this unit: deleted flags and the meta dictionary
-pub struct World { pub deleted: Map<int, bool>, pub names: Set<Seq<u8>>, pub meta_removed: Seq<Seq<u8>> }
+pub struct World { pub deleted: Map<int, bool>, pub names: Set<Seq<u8>>, pub meta_removed: Seq<Seq<u8>>,
+    pub removed_dirs: Seq<int>, pub meta_names: Map<u64, Seq<u8>>, pub registered: Map<Seq<u8>, RegG>, pub opts_in_meta: Map<u64, CreateOptions> }
 pub struct AtomicBool { pub id: Ghost<int> }
 impl AtomicBool {
     #[verifier::external_body]
@@ -52,7 +58,7 @@ pub struct PathBuf { pub id: Ghost<int> }
 impl PathBuf { #[verifier::external_body] pub fn join<T>(&self, t: T) -> (r: PathBuf) { unimplemented!() } }
 #[verifier::external_body] pub fn fs_create_dir_all(p: &PathBuf) -> (r: Result<(), IoError>) { unimplemented!() }
 pub const KEYSPACES_FOLDER: u8 = 0;
-pub struct DbConfig { pub path: PathBuf, pub descriptor_table: DescriptorTable, pub cache: Cache }
+pub struct DbConfig { pub path: PathBuf, pub descriptor_table: DescriptorTable, pub cache: Cache, pub compaction_filter_factory_assigner: Option<Assigner> }
 pub struct DescriptorTable { pub id: Ghost<int> }
 impl Clone for DescriptorTable { #[verifier::external_body] fn clone(&self) -> (r: DescriptorTable) ensures r.id == self.id { unimplemented!() } }
 pub struct Cache { pub id: Ghost<int> }
@@ -123,9 +129,86 @@ impl MetaKeyspace {
     { unimplemented!() }
 }
 
+// ---- recover_keyspaces (src/recovery.rs): directory scan shims and ghost state
+pub struct DirEntry { pub id: Ghost<u64>, pub is_file: Ghost<bool>, pub path: Ghost<int> }   // a directory entry named <id>
+pub struct FileType { pub f: bool }
+impl FileType { pub fn is_file(&self) -> (r: bool) ensures r == self.f { self.f } }
+pub struct OsString { pub id: Ghost<u64> }
+pub struct NameStr { pub id: Ghost<u64> }
+pub struct ParseResult { pub id: Ghost<u64> }
+impl DirEntry {
+    #[verifier::external_body] pub fn path(&self) -> (r: PathBuf) ensures r.id == self.path { unimplemented!() }
+    #[verifier::external_body] pub fn file_type(&self) -> (r: Result<FileType, IoError>) ensures r is Ok ==> r->Ok_0.f == self.is_file@ { unimplemented!() }
+    #[verifier::external_body] pub fn file_name(&self) -> (r: OsString) ensures r.id == self.id { unimplemented!() }
+}
+impl OsString { #[verifier::external_body] pub fn to_str(&self) -> (r: Option<NameStr>) ensures r is Some && r->Some_0.id == self.id { unimplemented!() } }
+impl NameStr { #[verifier::external_body] pub fn parse<T>(&self) -> (r: ParseResult) ensures r.id == self.id { unimplemented!() } }
+// ASSUMED: every entry of the keyspaces folder is named by a decimal keyspace id (the real code panics otherwise)
+impl ParseResult { #[verifier::external_body] pub fn expect(self, m: &str) -> (r: u64) ensures r == self.id@ { unimplemented!() } }
+impl PathBuf {
+    #[verifier::external_body] pub fn try_exists(&self) -> (r: Result<bool, IoError>) { unimplemented!() }
+}
+#[verifier::external_body] pub fn fs_read_dir(p: &PathBuf) -> (r: Result<Vec<Result<DirEntry, IoError>>, IoError>) { unimplemented!() }
+/// what a handle registered by recovery must look like (C16, C18, C06, C13, C17)
+pub open spec fn reg_ok(r: RegG, name: Seq<u8>, db: &Database, w0: World) -> bool {
+    &&& w0.meta_names.dom().contains(r.id) && w0.meta_names[r.id] == name          // registered under the name the meta keyspace gives its id
+    &&& w0.opts_in_meta.dom().contains(r.id)
+    &&& r.factory == (match db.config.compaction_filter_factory_assigner { Some(a) => (a.f@)(name), None => None })   // exactly the assigner's verdict for THIS name
+    &&& cfg_matches(r.cfg, CreateOptions { compaction_filter_factory: None, ..w0.opts_in_meta[r.id] }) || cfg_matches_but_factory(r.cfg, w0.opts_in_meta[r.id], r.factory)
+    &&& r.cfg.seqno == db.supervisor.seqno.id@ && r.cfg.visible == db.supervisor.snapshot_tracker.visible.id@
+    &&& r.poison == db.is_poisoned.id@ && r.lock == db.lock_file.id@
+}
+pub open spec fn cfg_matches_but_factory(g: LsmConfigG, o: CreateOptions, f: Option<int>) -> bool {
+    g.data_block_size == o.data_block_size_policy.v@ && g.data_block_compression == o.data_block_compression_policy.v@
+    && g.index_block_compression == o.index_block_compression_policy.v@ && g.restart_interval == o.data_block_restart_interval_policy.v@
+    && g.filter_pinning == o.filter_block_pinning_policy.v@ && g.index_pinning == o.index_block_pinning_policy.v@
+    && g.hash_ratio == o.data_block_hash_ratio_policy.v@ && g.expect_hits == o.expect_point_read_hits && g.kv_sep == optv(o.kv_separation_opts)
+    && g.index_partitioning == o.index_block_partitioning_policy.v@ && g.filter_partitioning == o.filter_block_partitioning_policy.v@
+    && g.filter_policy == o.filter_policy.v@ && g.filter_factory == f
+}
+pub struct RegG { pub id: u64, pub cfg: LsmConfigG, pub factory: Option<int>, pub poison: int, pub lock: int }
+#[verifier::external_body] pub fn fs_remove_dir_all(p: PathBuf, Tracked(w): Tracked<&mut World>) -> (r: Result<(), IoError>)
+    ensures r is Ok ==> *final(w) == (World { removed_dirs: old(w).removed_dirs.push(p.id@), ..*old(w) }), r is Err ==> *final(w) == *old(w) { unimplemented!() }
+pub const LSM_CURRENT_VERSION_MARKER: u8 = 1;
+impl MetaKeyspace {
+    #[verifier::external_body]
+    pub fn resolve_id(&self, id: InternalKeyspaceId, Tracked(w): Tracked<&mut World>) -> (r: Result<Option<KeyspaceKey>, Error>)
+        ensures *final(w) == *old(w),
+            r matches Ok(Some(n)) ==> old(w).meta_names.dom().contains(id) && n.s@ == old(w).meta_names[id],
+            r matches Ok(None) ==> !old(w).meta_names.dom().contains(id),
+    { unimplemented!() }
+}
+impl Clone for KeyspaceKey { #[verifier::external_body] fn clone(&self) -> (r: KeyspaceKey) ensures r.s == self.s { unimplemented!() } }
+impl CreateOptions {
+    // ASSUMED contract of CreateOptions::from_kvs (src/keyspace/options.rs, not under contract): the options stored in
+    // the meta keyspace for this id, with no compaction filter factory
+    #[verifier::external_body]
+    pub fn from_kvs(id: InternalKeyspaceId, meta: &MetaKeyspace, Tracked(w): Tracked<&mut World>) -> (r: Result<CreateOptions, Error>)
+        ensures *final(w) == *old(w), r is Ok ==> old(w).opts_in_meta.dom().contains(id) && r->Ok_0 == old(w).opts_in_meta[id] && r->Ok_0.compaction_filter_factory is None,
+    { unimplemented!() }
+}
+pub struct Assigner { pub f: Ghost<spec_fn(Seq<u8>) -> Option<int>> }   // Arc<dyn Fn(&str) -> Option<Arc<dyn CompactionFilterFactory>>>
+impl Assigner {
+    #[verifier::external_body]
+    pub fn call(&self, name: &KeyspaceKey) -> (r: Option<FilterFactory>) ensures facv(r) == (self.f@)(name.s@) { unimplemented!() }
+}
+pub struct KsWriteGuard { pub dummy: u8 }
+impl KsWriteGuard {
+    #[verifier::external_body]
+    pub fn insert(&mut self, name: KeyspaceKey, k: Keyspace, Tracked(w): Tracked<&mut World>) -> (r: Option<Keyspace>)
+        ensures *final(w) == (World { registered: old(w).registered.insert(name.s@, RegG { id: k.0.t.id, cfg: k.0.t.tree.cfg@, factory: facv(k.0.t.config.compaction_filter_factory), poison: k.0.t.is_poisoned.id@, lock: k.0.t.lock_file.id@ }), ..*old(w) }),
+    { unimplemented!() }
+}
+impl Clone for Keyspace { #[verifier::external_body] fn clone(&self) -> (r: Keyspace) ensures r == *self { unimplemented!() } }
+
 //@extract-type src/keyspace/mod.rs :: KeyspaceInner
 //@extract-type src/keyspace/mod.rs :: Keyspace
 impl std::ops::Deref for Keyspace { type Target = KeyspaceInner; fn deref(&self) -> (r: &KeyspaceInner) ensures *r == self.0.t { &self.0.t } }
+
+//@extract src/keyspace/options.rs :: CreateOptions :: with_compaction_filter_factory props=C18+C16
+//@contract
+    ensures r == (CreateOptions { compaction_filter_factory: Some(factory), ..self }), // [C16:installing-a-filter-keeps-every-other-option] [C18:factory-installed]
+//@end
 
 //@extract src/keyspace/mod.rs :: apply_to_base_config props=C16+C18
 //@contract
@@ -159,6 +242,33 @@ impl std::ops::Deref for Keyspace { type Target = KeyspaceInner; fn deref(&self)
         r is Ok ==> !final(w).names.contains(handle.0.t.name.s@) // [C12:name-no-longer-exists]
             && final(w).deleted.dom().contains(handle.0.t.is_deleted.id@) && final(w).deleted[handle.0.t.is_deleted.id@], // [C12:old-handles-refuse]
         r is Err ==> *final(w) == *old(w), // [C12:failed-delete-changes-nothing]
+//@end
+
+//@extract src/recovery.rs :: recover_keyspaces as=recover_keyspaces_scan world desugar_for=0 optmap props=C12+C06+C16+C18+C13+C17+C01+C11
+//@anchor for dirent in
+//@sig fn recover_keyspaces_scan(db: &Database, meta_keyspace: &MetaKeyspace, keyspaces_folder: PathBuf, keyspaces_lock: &mut KsWriteGuard, mut highest_id: u64) -> FjResult<u64>
+//@yield Ok(highest_id)
+//@contract
+    requires highest_id >= 1,
+    ensures true,
+//@loop 0
+            invariant
+                highest_id >= 1,
+                // P-ID (C12): the id counter is seeded above EVERY directory id seen so far, referenced or not
+                forall|j: int| 0 <= j < __fjx_n0 ==> (ents[j] is Ok && !ents[j]->Ok_0.is_file@ ==> highest_id >= ents[j]->Ok_0.id@), // [C12:P-ID-counter-above-every-directory-id]
+                ents.len() == total, 0 <= __fjx_n0 <= total, __fjx_it0.remaining().len() == total - __fjx_n0,
+                forall|j: int| 0 <= j < __fjx_it0.remaining().len() ==> (#[trigger] __fjx_it0.remaining()[j]) == ents[__fjx_n0 + j],
+                // every keyspace registered so far: recovered options, counters of this database, shared flag and lock, assigner's factory
+                forall|n: Seq<u8>| #![trigger w.registered[n]] w.registered.dom().contains(n) && !old(w).registered.dom().contains(n) ==> reg_ok(w.registered[n], n, db, *old(w)), // [C16:recovered-options-in-force] [C18:assigned-filter-installed-on-recovery] [C06:trees-share-the-database-counters] [C11:recovered-trees-advance-the-visible-seqno] [C01:recovered-trees-advance-the-visible-seqno] [C13:keyspace-shares-the-database-poison-flag] [C17:keyspace-holds-the-directory-lock]
+                w.meta_names == old(w).meta_names && w.opts_in_meta == old(w).opts_in_meta,
+                forall|n: Seq<u8>| old(w).registered.dom().contains(n) ==> w.registered.dom().contains(n),
+            ensures __fjx_n0 == total,
+            decreases total - __fjx_n0,
+//@proof before let mut __fjx_it0
+        let ghost ents = __fjx_src0@;
+        let ghost total = ents.len() as int;
+//@proof before @loop-start 0
+            proof { assert(dirent == ents[__fjx_n0 - 1]); }
 //@end
 
 //@canary
